@@ -7,6 +7,7 @@ package media
 import (
 	"errors"
 	"strings"
+	"sync"
 	"sync/atomic"
 	"time"
 
@@ -47,8 +48,9 @@ type Stream struct {
 	startOn              time.Time // 启动时间
 	path                 string    // 流路径
 	rawsdp               string
-	size                 uint64 // 流已经接收到的输入（字节）
-	status               int32  // 流状态
+	size                 uint64     // 流已经接收到的输入（字节）
+	status               int32      // 流状态
+	joinLock             sync.Mutex // 保证“缓存更新+广播”与“缓存快照+注册消费者”互斥，新消费者既不丢包也不重包
 	consumerSequenceSeed uint32
 	consumptions         consumptions // 消费者列表
 	cache                packCache    // 媒体包缓存
@@ -209,11 +211,13 @@ func (s *Stream) WriteRtpPacket(packet *rtp.Packet) error {
 
 	atomic.AddUint64(&s.size, uint64(packet.Size()))
 
+	s.joinLock.Lock()
 	vhook.At("pub.begin", s)
 	keyframe := s.cache.CachePack(packet)
 	vhook.At("pub.cached", s)
 	s.consumptions.SendToAll(packet, keyframe)
 	vhook.At("pub.sent", s)
+	s.joinLock.Unlock()
 
 	s.rtpDemuxer.WriteRtpPacket(packet)
 	return nil
@@ -239,11 +243,13 @@ func (s *Stream) WriteFlvTag(tag *flv.Tag) error {
 		return statusErrors[status]
 	}
 
+	s.joinLock.Lock()
 	vhook.At("flv.begin", s)
 	keyframe := s.flvCache.CachePack(tag)
 	vhook.At("flv.cached", s)
 	s.flvConsumptions.SendToAll(tag, keyframe)
 	vhook.At("flv.sent", s)
+	s.joinLock.Unlock()
 	return nil
 }
 
@@ -286,6 +292,7 @@ func (s *Stream) startConsume(consumer Consumer, packetType PacketType, extra st
 		cache = s.flvCache
 	}
 
+	s.joinLock.Lock()
 	vhook.At("join.begin", c)
 	if useGopCache {
 		c.sendGop(cache) // 新消费者，先发送gop缓存
@@ -293,6 +300,7 @@ func (s *Stream) startConsume(consumer Consumer, packetType PacketType, extra st
 	vhook.At("join.snap", c)
 	cs.Add(c)
 	vhook.At("join.added", c)
+	s.joinLock.Unlock()
 
 	// 注册后再检查一次流状态：如果流在此期间已被关闭（关闭清理可能已经扫过），
 	// 由这里负责移除并关闭该消费者，保证不会遗留在已关闭的流上
